@@ -75,8 +75,8 @@ func hasField(st *types.Struct, name string) bool {
 
 func C03(c *core.Ctx) {
 	c.Explanation("C03: (R1) the soft- and hard-gap encoding tables and the decoding table are extracted from source and checked against IUPAC base sets for all 256 bytes and all 17x17 symbol pairs; (R2/R3) the per-record worker getSNPs is interpreted abstractly: its inner column loop is reduced to a transfer function evaluated for every (reference symbol, query symbol) pair in both gap modes, which must append exactly decode(ref)+decimal(i+1)+decode(query) iff the base sets are disjoint, with i the ascending loop index, and the emitted row must carry the record's ID, index and the list built by that loop; the width check must divert unequal rows to the error channel; (R4) both FASTA readers receive the command's --hard-gaps flag and select the hard-gap table exactly when it is set; (R5) worker-pool output is consumed by an index re-orderer.")
-	checkStdoutWriters(c, facts(c), "R6")
-	c16Structural(c)
+	checkStdoutWriters(c, facts(c), "R6", "pkg/snps", "pkg/fastaio", "pkg/gfio", "pkg/encoding")
+	c16Structural(c, "pkg/fastaio")
 	checkArrivalOrderIndependence(c, "R5/reorder", "snps.writeOutput")
 	ev := newEval(c)
 	tabs := extractTables(c, ev, "R1")
@@ -84,6 +84,7 @@ func C03(c *core.Ctx) {
 		return
 	}
 	checkEncDec(c, "R1", tabs)
+	checkReaders(c, tabs, "R7/", true, "ReadEncodeAlignment", "ReadEncodeAlignmentToList") // the rows compared are the records of the files, however their lines are wrapped
 	fn := c.LookupFunc("pkg/snps", "getSNPs")
 	if fn == nil {
 		c.Und("R2/getSNPs", token.NoPos, "UNRESOLVED anchor snps.getSNPs")
